@@ -530,7 +530,14 @@ pub(crate) fn compile_inner(inner_re: &str, options: &RegexOptions) -> Result<Ra
 
 /// Compile the analyzed expressions into a program.
 pub fn compile(info: &Info<'_>) -> Result<Prog> {
+    compile_with_options(info, &RegexOptions::default())
+}
+
+/// Compile the analyzed expressions into a program whose delegated sub-expressions are built
+/// with the given options (size limits).
+pub(crate) fn compile_with_options(info: &Info<'_>, options: &RegexOptions) -> Result<Prog> {
     let mut c = Compiler::new(info.end_group);
+    c.options = options.clone();
     c.visit(info, false)?;
     c.b.add(Insn::End);
     Ok(c.b.build())
